@@ -12,6 +12,11 @@
 (*   Defects = {"F03b"} / {"F03c"} TLC must refute BuildTotal / Stored     *)
 (*   (that is how the witnesses of the findings are regenerated).          *)
 (*                                                                         *)
+(* Mode "merge" (INIT MInit, NEXT GNext): the k-way merge with            *)
+(*   de-duplication of Resolve.tla (archive group from several archive     *)
+(*   indices) for every triple of sources over 4 keys: sorted, complete,   *)
+(*   first source wins (MergeInv).                                         *)
+(*                                                                         *)
 (* Mode "gen" (INIT GInit, NEXT GNext): one initial state per program      *)
 (*   <<kind, configuration, population size, key layout, probe list>> for  *)
 (*   the REAL formats.  Population sizes are the boundary populations of   *)
@@ -46,6 +51,16 @@ DNext == /\ UNCHANGED prog
             \/ Build
             \/ \E k \in SmallKeys, k2 \in {0, 3, 5} : Lookup(k, k2)
 AllKeys == AllKeysOK(SmallKeys \cup {6})
+
+\* ------------------------------------------------------------------------
+\* merge mode (INIT MInit, NEXT GNext): every triple of sources over 4 keys - each source a subset of the
+\* keys, source j stores key k with value 10 j + k - merged by Resolve!MergeR; invariant MergeInv
+\* ------------------------------------------------------------------------
+MergeKeys == 1..4
+SourceOf(j, S) == LET ks == SortedSeqOf(S) IN [i \in 1..Len(ks) |-> <<ks[i], 10 * j + ks[i]>>]
+MInit == /\ model = <<>> /\ built = NoStruct /\ res = <<>> /\ prog = <<>>
+         /\ cfg \in [1..3 -> SUBSET MergeKeys]
+MergeInv == MergeOK([j \in 1..3 |-> SourceOf(j, cfg[j])])
 
 \* ------------------------------------------------------------------------
 \* gen mode
@@ -91,11 +106,14 @@ AidxProgs ==
 
 \* -- archive group ------------------------------------------------------------------
 AGroupPops == Boundary(AGroupP) \cup {3 * AGroupP, 3 * AGroupP + 1, FirstChunkDrift(AGroupRec, ChunkBytes)}
+\* <<sources, build path, dup>>: dup = d > 0 hands every d-th key in twice (second copy loses)
+AGroupPaths == {<<7, "builder", 0>>, <<1, "merged", 0>>, <<3, "merged", 0>>,
+                <<3, "merged", 2>>, <<2, "merged", 1>>, <<7, "builder", 3>>}
 AGroupProgs ==
-  { [kind |-> "agroup", n |-> n, srcs |-> sp[1], path |-> sp[2], lay |-> lay,
+  { [kind |-> "agroup", n |-> n, srcs |-> sp[1], path |-> sp[2], dup |-> sp[3], lay |-> lay,
      vp |-> (CHOOSE vo \in VpOrd(lay) : TRUE)[1], ord |-> (CHOOSE vo \in VpOrd(lay) : TRUE)[2],
      probes |-> ProbeSeq(AGroupP, n, lay, {})] :
-      n \in AGroupPops, sp \in {<<7, "builder">>, <<1, "merged">>, <<3, "merged">>}, lay \in Lays }
+      n \in AGroupPops, sp \in AGroupPaths, lay \in Lays }
 
 \* -- encoding table -------------------------------------------------------------------
 KBs == IF Quick THEN {1, 4} ELSE {1, 2, 4}
@@ -113,7 +131,8 @@ EncProgs ==
   UNION { {EncProg(kb, 1, nek, 3, 3, "prefix", <<"lo", "asc">>, "raw") : nek \in {MaxNek(kb), MaxNek(kb) + 1}} : kb \in {1, 4} }
 
 \* -- root manifest ---------------------------------------------------------------------
-RootShapes == { <<"dense", 1, "norm", "asc">>, <<"gap", 2, "raw", "rot">>, <<"ends", 2, "norm", "desc">> }
+RootShapes == { <<"dense", 1, "norm", "asc">>, <<"gap", 2, "raw", "rot">>, <<"ends", 2, "norm", "desc">>,
+                <<"gap", 3, "raw", "desc">> }      \* 3 blocks: the third has locale mask 0
 NamedCounts(n) == {x \in {0, 1, 4, 5, 9, 10, n} : x <= n}
 RootProgs ==
   UNION { {[kind |-> "root", ver |-> ver, n |-> n, named |-> nm, lay |-> sh[1], blocks |-> sh[2], style |-> sh[3],
@@ -121,9 +140,9 @@ RootProgs ==
           ver \in 1..4, n \in RootCounts \cup (IF Quick THEN {} ELSE {2, 17, 50, 98, 255, 256, 1000}), sh \in RootShapes }
 
 ChainProgs ==
-  { [kind |-> "chain", ver |-> ver, n |-> n, named |-> n, lay |-> "gap", blocks |-> 1, style |-> st, ord |-> "rot",
+  { [kind |-> "chain", ver |-> ver, n |-> n, named |-> n, lay |-> "gap", blocks |-> sb[2], style |-> sb[1], ord |-> "rot",
      vp |-> "lo", kbc |-> 1, kbe |-> 1, probes |-> ProbeSeq(26, n, "gap", {})] :
-      ver \in 1..4, n \in {1, 16, 100}, st \in {"norm", "raw"} }
+      ver \in 1..4, n \in {1, 16, 100}, sb \in {<<"norm", 1>>, <<"raw", 1>>, <<"raw", 3>>} }
 
 \* -- TVFS manifest -----------------------------------------------------------------------
 TFlags  == IF Quick THEN {0, 1, 5} ELSE 0..7
